@@ -225,6 +225,17 @@ fn row_can_match_mode(p: &P, row: &dyn Fn(&str) -> V, strict: bool) -> bool {
 fn row_can_match(p: &P, row: &dyn Fn(&str) -> V) -> bool {
     row_can_match_mode(p, row, true)
 }
+/// Weaker: the predicate does not evaluate to a definite FALSE on the row (TRUE or NULL under some resolution).
+/// Used where DataFusion is the judge of what matches: its simplifier merges `x NOT IN (a, b) OR x NOT IN (a, NULL)`
+/// into `x NOT IN (a)`, which turns a NULL into TRUE, so a NULL verdict of the strict evaluation is not evidence
+/// that the conversion lost the row.
+fn row_not_excluded(p: &P, row: &dyn Fn(&str) -> V) -> bool {
+    let n = count_incomparable(p, row).min(12);
+    (0..(1u32 << n)).any(|bits| {
+        let mut r = Res { bits, next: 0 };
+        eval3(p, row, &mut r) != Some(false)
+    })
+}
 
 // ------------------------------------------------------------------------------------------------
 // fn layer: spaces
@@ -855,7 +866,7 @@ fn run_fn_layer(rep: &mut Report, tier: &str) {
         d1.extend(depth1(&ay, &ax));
         let a1 = sweep(&d1, &chunks, &format!("{}x{}", tx.name(), ty.name()), false);
         // depth 2 over a thinner alphabet
-        let step = if thorough { 2 } else { 5 };
+        let step = if thorough { 2 } else { 8 };
         let thin: Vec<P> = both.iter().step_by(step).cloned().collect();
         let mut lvl1: Vec<P> = thin.clone();
         lvl1.extend(depth1(&thin, &thin));
@@ -1184,6 +1195,17 @@ fn sql_cases(tier: &str) -> Vec<SqlCase> {
             cases.push(plain(&format!("NOT ({a}) AND {b}"), false));
         }
     }
+    // a convertible clause next to one the conversion cannot express (reversed operands, NOT, IS NULL, arithmetic,
+    // LIKE, column-vs-column ...): under OR nothing may be pushed down, under AND the convertible side may
+    let others: Vec<&String> = atoms_other.iter().step_by(if thorough { 2 } else { 7 }).collect();
+    for a in &sub {
+        for o in &others {
+            cases.push(plain(&format!("{a} OR {o}"), false));
+            cases.push(plain(&format!("{o} OR {a}"), false));
+            cases.push(plain(&format!("{a} AND {o}"), false));
+            cases.push(plain(&format!("({o}) AND {a}"), false));
+        }
+    }
     let sub3: Vec<&String> = atoms_exact.iter().step_by(if thorough { 23 } else { 47 }).collect();
     for a in &sub3 {
         for b in &sub3 {
@@ -1408,7 +1430,7 @@ async fn run_sql_case(w: &World, wi: usize, c: &SqlCase, agg: &mut SqlAgg, verbo
                     agg.rows_validated += 1;
                     let can = row_can_match(&preds[0], &srow_fn(r));
                     let does = matching.contains(&r.rid);
-                    if does && !can && excluded.is_none() {
+                    if does && !can && !row_not_excluded(&preds[0], &srow_fn(r)) && excluded.is_none() {
                         excluded = Some(r);
                     }
                     if can && !does && over.is_none() {
